@@ -8,7 +8,7 @@ TECH = "deterministic simulation with fault injection: the real server runs on a
 
 CLAIMS = {
     "C01": ("reference model + replicated client views + server state through the repository's accessors, compared at every quiescence point; permutation search for concurrent blocks",
-            "Seeded exploration of sequential histories (exact per-connection stream expectation from a reference model) and of 2-3 request concurrent blocks under random-walk/PCT schedules; views, server state and joiner state are compared at every quiescent point. Sampling, not enumeration.", "§7 C01"),
+            "Seeded exploration of sequential histories (exact per-connection stream expectation from a reference model) and of concurrent blocks of 2-5 requests under random-walk/PCT schedules with unlock yields, task stalls and client clock skew: uniformly drawn blocks, focus blocks (all requests on one entity/component/action), endgame blocks (every member leaves while others create, join by id or switch in) and duels; views, server state, model-free state invariants and joiner state are compared at every quiescent point. Sampling, not enumeration.", "§7 C01"),
     "C02": ("per-connection expected relay streams from the reference model (exactly once, no echo, FIFO per originator), multiset check for members present throughout a concurrent block",
             "Every accepted request's relays are predicted by the model and compared message by message with what each connection received; refused requests must produce none.", "§7 C02"),
     "C04": ("admissible answer set per request from the reference model; exactly one answer at the requester; refused requests leave model, views and server state unchanged",
@@ -16,15 +16,15 @@ CLAIMS = {
     "C05": ("reference model ownership rule; refused attempts must relay nothing and change no view; participant ids never reissued per session UUID",
             "Histories biased to (requester, entity) pairs incl. late joiners after the owner left; exact stream and state comparison.", "§7 C05"),
     "C06": ("model of departure (delete relays in any order, then one leave relay; attachments cascade; persistent entities survive) against streams, server state and later joiners; HandleDisconnect counted",
-            "Departures by FIN, RST, protocol error, server-side disconnect and session switch are injected after histories that build entities with components, actions, assets and subscriptions.", "§7 C06"),
+            "Departures by FIN, RST, protocol error, idle timeout (on the simulated clock, while the other members keep sending), server-side disconnect and session switch are injected after histories that build entities with components, actions, assets and subscriptions; a share of the departures overlaps other members' requests on the leaver's entities.", "§7 C06"),
     "C11": ("per observer and entity: relays are an order preserving selection of the poses sent ending with the last; exact relay expectation for sequential updates; server/joiner pose equals last accepted",
-            "Numbered pose updates in sequential steps and pipelined bursts across frame ticks of 1 ms - 500 ms, with joins, switches, deletes and leaves in between.", "§7 C11"),
+            "Numbered pose updates in sequential steps, pipelined bursts across frame ticks of 1 ms - 500 ms (also naming ids of another session right before a switch), blocks in which joins, switches, departures and deletions arrive at the instant of the tick that flushes pending updates, a probe joiner after such blocks, stalled readers with 520-1500 relays outstanding, and client clocks that are skewed or step backwards.", "§7 C11"),
     "C12": ("reference map keyed (type, entity) against answers, list responses, joiner state and server store",
             "Histories of type registrations, adds, updates, deletes, lists and entity removals with existing, never-existing and no-longer-existing ids.", "§7 C12"),
     "C13": ("reference subscription relation: must-receive / may-receive / must-not-receive sets per component change",
             "Subscribe/unsubscribe/join/leave/component changes by >= 3 members over several types; exact streams.", "§7 C13"),
     "C14": ("byte-exact expected broadcast, exact recipient set, limit boundary from the statement (10240)",
-            "Body lengths around the limit and arbitrary bytes, recipient lists over members, strangers, duplicates, departed ids and the sender.", "§7 C14"),
+            "Body lengths around the limit and arbitrary bytes, recipient lists over members, strangers, duplicates, departed ids and the sender, the same list again after a session switch; sessions that 62-258 connections have passed through (participant ids beyond 64/128/256); a small share of simultaneous targeted messages.", "§7 C14"),
     "C16": ("reference last-writer-wins action map and one-asset-per-entity map against answers, relays, module state and joiner state",
             "Action/asset requests with equal, older (by seconds and by one nanosecond), far-future, zero, negative and absent timestamps interleaved with deletions and departures.", "§7 C16"),
 }
@@ -45,11 +45,11 @@ CLAIMS.update({
     "C15": ("two-sided, conservative: a single carrier holding a token that is clearly valid under the secret currently issued (HS256, right key, iat <= now < exp with margins on the simulated clock) must be admitted and the inner handler entered once; a token not valid under any secret current during the attempt even with 15 s of leeway (every mutation, other/empty key, alg none, expired, not yet valid, no secret held) must be rejected with the inner handler never entered; everything else is not asserted",
             "The real websocket.Server{Handshake: VerifyAuthToken} and VerifyAuthTokenHandler in front of harness-owned inner handlers; tokens minted, mutated and re-presented while the simulated clock crosses expiry and not-before and while HDS events (registered, rotated, secret lost, rotation at the very instant of a handshake) interleave with attempts; header, query and cookie carriers and their combinations. The token-mutation dimension is seeded input generation; the clock and rotation dimensions are simulation proper.", "§7 C15, §8"),
     "C18": ("per measurement: started only for a joined requester with 3-50 rounds and a wallet; exactly that many pings; one report whose signature recovers the server wallet over exactly the returned data; data names client id, session uuid, wallet; ping id set = ids issued, each once; 0 <= min <= mean <= max, p95 and last within; last = latency of the final round (rounds are given round-trip times 10 ms apart on the simulated clock, tolerance 2 ms); duplicate, unknown and replayed answers are refused and do not advance",
-            "Iteration counts 0-60 and extremes, wallet strings, joined / not joined; client behaviours on the simulated clock: honest, answer a ping twice, answer unknown ids, replay an old answer after completion, restart mid-way, run a second measurement on the same connection.", "§7 C18"),
+            "Iteration counts 0-60 and extremes, wallet strings, joined / not joined; client behaviours on the simulated clock: honest, answer a ping twice, answer unknown ids, replay an old answer after completion, restart mid-way, run a second measurement on the same connection; client clock (the timestamps it writes) off by seconds, hours or decades.", "§7 C18"),
     "C19": ("independent validity decision (Keccak-256 from x/crypto/sha3, recoverability from decred RecoverCompact) against what the simulated credit service received: forwarded = valid accepted, at most once, JSON body field for field; exactly one answer per submission (accepted / bad request / too busy); the submitter is still served while the forwarder is stalled",
-            "Valid triples and every single-field corruption, 1-300 submissions from 1-6 connections, credit service up / slow / hanging / refusing (transport stub on the simulated clock), forwarder task stalled by the scheduler so that the queue of 128 fills.", "§7 C19"),
+            "Valid triples and every single-field corruption, resubmissions of an accepted triple unchanged or with only its signature damaged, 1-300 submissions from 1-6 connections, credit service up / slow / hanging / refusing / dropping the reply (transport stub on the simulated clock), forwarder task stalled by the scheduler so that the queue of 128 fills; statement-level scheduling points in receipt/handler.go.", "§7 C19"),
     "C20": ("invariants over the exported fields of the session's RegularGrid after every delivered sample (every stored plane registered in every cell its footprint overlaps, bounds contain every footprint, PlaneCount = distinct stored planes, covering region query returns each exactly once, vertical ray through a centre hits), stored planes never decrease across joins/leaves, what a second member is told over the protocol equals what is stored; the geometric-primitive clause is evaluated on seeded vectors against a math/big reference as a labelled, non-simulated side oracle",
-            "Quad samples (finite, |coord| <= 64 m, positive extents; appends, merges, cascade merges, growth in all four directions) sent by 1-3 members interleaved with joins and leaves; region and ray queries from another member.", "§7 C20, §8"),
+            "Quad samples (finite, |coord| <= 64 m, positive extents; appends, merges, cascade merges, growth in all four directions) sent by 1-3 members, a share of them at the same instant with statement-level scheduling points inside the grid code, interleaved with joins and leaves; region and ray queries from another member.", "§7 C20, §8"),
 })
 
 NA = {
